@@ -141,6 +141,8 @@ pub struct SessionCfg {
     pub profile: Option<ExecutionProfile>,
     /// Session-level location preference (SessionBuilder::prefer_datacenter[_and_rack]).
     pub prefer: Option<(String, Option<String>)>,
+    /// Keyspace set at session creation (SessionBuilder::use_keyspace): (name, case sensitive).
+    pub initial_keyspace: Option<(String, bool)>,
 }
 
 impl Default for SessionCfg {
@@ -160,6 +162,7 @@ impl Default for SessionCfg {
             retry: None,
             profile: None,
             prefer: None,
+            initial_keyspace: None,
         }
     }
 }
@@ -219,6 +222,9 @@ pub async fn build_session(cfg: &SessionCfg) -> Result<Session, NewSessionError>
         Some((dc, None)) => b.prefer_datacenter(dc.clone()),
         None => b,
     };
+    if let Some((ks, cs)) = &cfg.initial_keyspace {
+        b = b.use_keyspace(ks.clone(), *cs);
+    }
     b.build().await
 }
 
